@@ -4,7 +4,7 @@
 use std::{cell::RefCell, collections::VecDeque, io::Write as _, pin::Pin, process::Command, rc::Rc, task::Poll};
 
 use cucumber::{Cucumber, Parser, Writer, cli, runner, writer};
-use futures::{StreamExt as _, stream};
+use futures::{FutureExt as _, StreamExt as _, stream};
 use serde_json::{Value, json};
 use tracing_subscriber::{Layer as _, filter::{LevelFilter, Targets}, fmt::format::{DefaultFields, Format}, layer::SubscriberExt as _};
 use vh::{analysis::Analysis, evrec::Item, exec, oracles_trace, report::Tally, spec, world::{self, TW}};
@@ -30,11 +30,13 @@ impl Writer<TW> for Push {
 }
 // raw events are wanted: the oracle looks at the runner's own order
 impl writer::Normalized for Push {}
+impl writer::NonTransforming for Push {}
 
 fn single(seed: u64, idx: u64) -> Tally {
     let prof = spec::Profile::by_name("c20");
     let mut case = spec::generate(&prof, seed, idx);
-    case.cfg.custom_which = false;
+    // a custom `which_scenario` only where the runner is configured through the `Cucumber` facade
+    case.cfg.custom_which = case.cfg.custom_which && idx % 3 == 2;
     world::reset(case.plan.clone(), case.world_plan.clone(), case.world_gates);
     world::with_rs(|rs| rs.emit_logs = true);
     // how the user's subscriber is configured:
@@ -68,17 +70,34 @@ fn single(seed: u64, idx: u64) -> Tally {
     }
     // every 5th run runs a clone of the fully configured `Cucumber` value (the original is dropped)
     let clone_facade = idx % 5 == 3;
+    // every 4th run wraps the writer through a `Cucumber`-level method after everything else is
+    // configured (both wrappers are given a predicate that selects nothing, so the stream is the same)
+    let wrap = match idx % 8 {
+        2 => 1,
+        6 => 2,
+        _ => 0,
+    };
+    macro_rules! fin {
+        ($cuc:expr) => {{
+            let c = $cuc;
+            let f: Pin<Box<dyn std::future::Future<Output = ()>>> = if clone_facade {
+                let copy = c.clone();
+                drop(c);
+                Box::pin(copy.run(()).map(drop))
+            } else {
+                Box::pin(c.run(()).map(drop))
+            };
+            f
+        }};
+    }
     macro_rules! go {
         ($cuc:expr) => {{
             let c = $cuc;
-            let f: Pin<Box<dyn std::future::Future<Output = Push>>> = if clone_facade {
-                let copy = c.clone();
-                drop(c);
-                Box::pin(copy.run(()))
-            } else {
-                Box::pin(c.run(()))
-            };
-            f
+            match wrap {
+                1 => fin!(c.repeat_if(|_| false)),
+                2 => fin!(c.fail_on_skipped_with(|_, _, _| false)),
+                _ => fin!(c),
+            }
         }};
     }
     // every 3rd run configures a bare runner through the `Cucumber`-level builder methods
@@ -109,6 +128,10 @@ fn single(seed: u64, idx: u64) -> Tally {
                 Some((current, left)) => Some(runner::basic::RetryOptions { retries: cucumber::event::Retries { current, left }, after: None }),
                 None => runner::basic::RetryOptions::parse_from_tags(f, rule, sc, cli),
             });
+        }
+        if cfg.custom_which {
+            // (a plain function, so the type stays the default one)
+            c = c.which_scenario(exec::custom_which as runner::basic::WhichScenarioFn);
         }
         c = c.given(re.clone(), world::step_fn).when(re.clone(), world::step_fn).then(re, world::step_fn);
         c = c
@@ -172,9 +195,12 @@ fn single(seed: u64, idx: u64) -> Tally {
     t.count("c20.runs_inside_an_outer_span", u64::from(outer));
     t.count("worlds_holding_a_child_of_their_scenario_span", world::with_rs(|rs| rs.scenario_span_holds));
     t.count("runs_configured_through_the_cucumber_facade", u64::from(through_facade));
+    t.count("runs_with_which_scenario_set_at_the_cucumber_facade", u64::from(through_facade && case.cfg.custom_which));
+    t.count("runs_with_a_writer_wrapper_added_at_the_cucumber_facade", u64::from(wrap != 0));
     t.count("runs_of_a_cloned_cucumber_value", u64::from(clone_facade));
     t.count("c20.deferred_in_span_logs_fired", out.qpoints.iter().filter(|q| q.decision.contains("deferred")).count() as u64);
     t.count("lines_logged_outside_any_span_from_inside_callbacks", world::with_rs(|rs| rs.helper_logs.min(40)));
+    t.count("c20.lines_logged_through_the_log_facade", world::with_rs(|rs| rs.log_facade_lines));
     t.count("c20.runs_with_a_warn_level_filter", u64::from(tmode == 1));
     t.count("runs_with_the_librarys_own_spans_filtered_out", u64::from(tmode == 2));
     if tmode != 2 {
